@@ -108,6 +108,49 @@ def check_hashed_parts_are_written(ctx, model):
         ctx.holds('R10-hash-covers-text', fi, 'every generated part the cookie covers is written wherever the module is written', 'the cookie tells apart every two files the generator can write', fi.node.lineno, clause='H')
 
 
+def check_install_conditions_agree(ctx, model, rule='R10-validate-before-install'):
+    """Round 9.  "reusing a matching cached module never changes behaviour": a function is
+    installed from the re-loaded module under exactly the conditions under which it is installed
+    from the module generated in this run (the generate_for_* option, the class not bringing its
+    own pack_impl / unpack_impl).  A cache hit that skips one of them replaces, on every later
+    run, what the first run left in place"""
+    import re
+    fi = model.fi
+    sig = {}
+    for p in model.paths:
+        evs = model.events(p)
+        gts = p.guard_texts()
+        for ev in evs:
+            if ev['ev'] != 'install' or ev['attr'] not in ('pack_impl', 'unpack_impl'):
+                continue
+            attr = ev['attr']
+            m = next((n for n in ast.walk(ev['value']) if model.sym(n)), None) if ev['value'] is not None else None
+            kind = model.kind(m) if m is not None else None
+            if kind not in ('load', 'mem'):
+                continue
+            pat = re.compile(r'(?<![a-z])%s\b|generate_for_%s\b' % (attr, attr.split('_')[0]))
+            rel = frozenset(g for g in gts if pat.search(g))
+            sig.setdefault((attr, kind), set()).add(rel)
+    for attr in ('pack_impl', 'unpack_impl'):
+        a, b = sig.get((attr, 'load')), sig.get((attr, 'mem'))
+        if not a or not b:
+            continue
+        st = 'install %s: conditions on a cache hit %s / after generating %s' % (attr, sorted(sorted(x) for x in a)[0][:3], sorted(sorted(x) for x in b)[0][:3])
+        if a == b:
+            ctx.holds(rule, fi, st[:200], 'the same conditions whether the module was re-loaded or generated in this run', fi.node.lineno, clause='V')
+        else:
+            # compared by what the conditions read, not by how they are spelled
+            def reads(side):
+                return {t for x in side for g in x for t in re.findall(r'[A-Za-z_][A-Za-z_0-9]*(?:\.[A-Za-z_][A-Za-z_0-9]*)+', g)}
+            only_b = sorted(reads(b) - reads(a))
+            only_a = sorted(reads(a) - reads(b))
+            if only_a or only_b:
+                ctx.violation(rule, fi, st[:300], 'the function of a re-loaded module is installed under other conditions (%s) than the function generated in this run: with a matching cache the class behaves differently from the first run (an own %s of the class is replaced, or kept, depending on the cache)' % (
+                    ('not asked on a cache hit: %s' % only_b[0][:80]) if only_b else ('asked only on a cache hit: %s' % only_a[0][:80]), attr), fi.node.lineno, clause='V', witness=True)
+            else:
+                ctx.undecided(rule, fi, st[:300], 'the conditions are combined differently on the two sides', fi.node.lineno, clause='V')
+
+
 def check(ctx):
     repo = ctx.repo
     model = CacheModel(repo, max_paths=max(ctx.max_paths, 65536))
@@ -115,6 +158,7 @@ def check(ctx):
     ctx.unit('functions')
     # Round 7: 'T' -- whatever the cache contains, a file that does not import (torn, foreign) is regenerated, not fatal
     r = check_protocol(ctx, model, 'VAT')
+    check_install_conditions_agree(ctx, model)
     seen = set()
 
     def once(rule, st):
